@@ -36,7 +36,7 @@ Proof. vm_compute. reflexivity. Qed.
 (* ------------------------------------------------------------------------------------------------------
    Added in build session 4 (statements re-stated from the proof files by harness tooling; each is closed by
    exact). *)
-From SplipyModel Require Import Model.Faces Proofs.FacesProofs.
+From SplipyModel Require Import Model.Faces Proofs.FacesProofs Model.Orient Model.Faces2 Proofs.Faces2Proofs.
 Theorem C18_cell_numbers_bijection :
   forall (shs : list idx3) (nums : list (list nat)) (n : nat),
          cell_numbers_model shs = (nums, n) ->
@@ -189,4 +189,139 @@ Theorem C18_no_face_twice :
   forall (start : nat) (sh : idx3), pos_shape sh -> NoDup (map face_key (patch_faces start sh)).
 Proof. exact @patch_faces_key_NoDup. Qed.
 Print Assumptions C18_no_face_twice.
+
+Theorem C18_interface_closed_form :
+  forall g : gluing,
+         wf_gluing g -> interface_faces g = map (iface2 g) (layer_cells (g_shA g) (g_dA g) (g_sideA g)).
+Proof. exact @interface_closed. Qed.
+Print Assumptions C18_interface_closed_form.
+
+Theorem C18_interface_neighbor_adjacent :
+  forall g : gluing,
+         wf_gluing g ->
+         forall f : face,
+         In f (interface_faces g) ->
+         exists a c : idx3,
+           in_cells (g_shA g) a /\
+           on_layer (g_shA g) (g_dA g) (g_sideA g) a = true /\
+           in_cells (g_shB g) c /\
+           on_layer (g_shB g) (g_dB g) (g_sideB g) c = true /\
+           owner f = cell_number (g_startA g) (g_shA g) a /\
+           neighbor f = Some (cell_number (g_startB g) (g_shB g) c) /\
+           inface (g_dB g) c = osrc (face_orient g) (face_shape (g_shB g) (g_dB g)) (inface (g_dA g) a) /\
+           (forall v : vec, In v (map (embB g) (corners c)) <-> In v (zcorners (across g a))).
+Proof. exact @interface_neighbor_adjacent. Qed.
+Print Assumptions C18_interface_neighbor_adjacent.
+
+Theorem C18_interface_pair_once :
+  forall g : gluing,
+         wf_gluing g ->
+         disjoint_numbers g ->
+         forall a : idx3,
+         in_cells (g_shA g) a ->
+         on_layer (g_shA g) (g_dA g) (g_sideA g) a = true ->
+         length
+           (filter (joins (cell_number (g_startA g) (g_shA g) a) (cell_number (g_startB g) (g_shB g) (nbr_cell g a)))
+              (model_faces g)) = 1.
+Proof. exact @interface_pair_once. Qed.
+Print Assumptions C18_interface_pair_once.
+
+Theorem C18_cross_pair_is_interface :
+  forall g : gluing,
+         wf_gluing g ->
+         disjoint_numbers g ->
+         forall a c : idx3,
+         in_cells (g_shA g) a ->
+         in_cells (g_shB g) c ->
+         0 <
+         length
+           (filter (joins (cell_number (g_startA g) (g_shA g) a) (cell_number (g_startB g) (g_shB g) c))
+              (model_faces g)) ->
+         on_layer (g_shA g) (g_dA g) (g_sideA g) a = true /\
+         c = nbr_cell g a /\ on_layer (g_shB g) (g_dB g) (g_sideB g) c = true.
+Proof. exact @cross_pair_is_interface. Qed.
+Print Assumptions C18_cross_pair_is_interface.
+
+Theorem C18_two_patch_cellA_six_faces :
+  forall g : gluing,
+         wf_gluing g ->
+         disjoint_numbers g ->
+         forall a : idx3,
+         in_cells (g_shA g) a -> length (filter (touches (cell_number (g_startA g) (g_shA g) a)) (model_faces g)) = 6.
+Proof. exact @cellA_six_faces. Qed.
+Print Assumptions C18_two_patch_cellA_six_faces.
+
+Theorem C18_two_patch_cellB_six_faces :
+  forall g : gluing,
+         wf_gluing g ->
+         disjoint_numbers g ->
+         forall c : idx3,
+         in_cells (g_shB g) c -> length (filter (touches (cell_number (g_startB g) (g_shB g) c)) (model_faces g)) = 6.
+Proof. exact @cellB_six_faces. Qed.
+Print Assumptions C18_two_patch_cellB_six_faces.
+
+Theorem C18_interface_owner_below_neighbour_iff :
+  forall g : gluing,
+         wf_gluing g ->
+         disjoint_numbers g ->
+         forall (f : face) (m : nat),
+         In f (interface_faces g) -> neighbor f = Some m -> owner f < m <-> g_startA g < g_startB g.
+Proof. exact @interface_assert_iff. Qed.
+Print Assumptions C18_interface_owner_below_neighbour_iff.
+
+Theorem C18_two_patch_final_assert :
+  forall g : gluing,
+         wf_gluing g ->
+         forall f : face,
+         g_startA g + ncells (g_shA g) <= g_startB g ->
+         In f (model_faces g) -> match neighbor f with
+                                 | Some m => owner f < m
+                                 | None => True
+                                 end.
+Proof. exact @model_faces_final_assert. Qed.
+Print Assumptions C18_two_patch_final_assert.
+
+Theorem C18_interface_face_orientation :
+  forall g : gluing,
+         wf_gluing g ->
+         forall f : face,
+         In f (interface_faces g) ->
+         exists a : idx3,
+           in_cells (g_shA g) a /\
+           on_layer (g_shA g) (g_dA g) (g_sideA g) a = true /\
+           owner f = cell_number (g_startA g) (g_shA g) a /\
+           neighbor f = Some (cell_number (g_startB g) (g_shB g) (nbr_cell g a)) /\
+           normal f = (if g_sideA g then zunit (g_dA g) else vneg (zunit (g_dA g))) /\
+           normal012 f = normal f /\
+           normal f = vsub (across g a) (zpt a) /\
+           (if g_sideA g
+            then BinInt.Z.lt BinNums.Z0 (zget (g_dA g) (normal f))
+            else BinInt.Z.lt (zget (g_dA g) (normal f)) BinNums.Z0).
+Proof. exact @interface_face_orientation. Qed.
+Print Assumptions C18_interface_face_orientation.
+
+Theorem C18_interface_face_nodes :
+  forall g : gluing,
+         wf_gluing g ->
+         forall f : face,
+         In f (interface_faces g) ->
+         exists a : idx3,
+           in_cells (g_shA g) a /\
+           on_layer (g_shA g) (g_dA g) (g_sideA g) a = true /\
+           owner f = cell_number (g_startA g) (g_shA g) a /\
+           NoDup (nodes f) /\
+           (forall p : idx3,
+            In p (nodes f) <->
+            In p (corners a) /\ get (g_dA g) p = side_index (get (g_dA g) (cpshape (g_shA g))) (g_sideA g)).
+Proof. exact @interface_face_nodes. Qed.
+Print Assumptions C18_interface_face_nodes.
+
+Theorem C18_two_patch_face_count :
+  forall g : gluing,
+         wf_gluing g ->
+         nperslice (g_shB g) (g_dB g) = nperslice (g_shA g) (g_dA g) /\
+         length (model_faces g) + nperslice (g_shA g) (g_dA g) =
+         length (patch_faces (g_startA g) (g_shA g)) + length (patch_faces (g_startB g) (g_shB g)).
+Proof. exact @model_face_count. Qed.
+Print Assumptions C18_two_patch_face_count.
 
